@@ -318,7 +318,7 @@ void h_shim_nanosleep(void) {
   __CPROVER_assume(req.tv_sec >= 0 && req.tv_nsec >= 0 && req.tv_nsec <= 999999999L);
   const uint64_t us_arg = (uint64_t)req.tv_nsec / 1000u + 1u;
 #if defined(TVSEC_UNBOUNDED)
-  __CPROVER_assume(req.tv_sec > (long)UINT32_MAX && sleep_ms_fits((uint32_t)req.tv_sec, us_arg));
+  __CPROVER_assume(req.tv_sec > (long)UINT32_MAX);
 #elif defined(ALL_DURATIONS)
   __CPROVER_assume(req.tv_sec <= (long)UINT32_MAX);
 #else
@@ -334,6 +334,11 @@ void h_shim_nanosleep(void) {
   g_claim = CLAIM_FITS;
 #endif
   g_requested_ns = (u128)(uint64_t)req.tv_sec * 1000000000u + (u128)(uint64_t)req.tv_nsec;
+#if defined(TVSEC_UNBOUNDED)
+  /* fiber_sleep takes 32-bit seconds: a request beyond 2^32-1 s (about 136 years) is served as 2^32-1 s; the claim for such
+     requests is "not earlier than 2^32-1 s" (a truncating conversion would return after (uint32_t)tv_sec seconds) */
+  g_requested_ns = (u128)UINT32_MAX * 1000000000u;
+#endif
   g_hook_ran = 0;
   yield_hook = HOOK_SINGLE;
   int r = nanosleep(&req, with_rem ? &rem : (struct timespec*)0); /* REAL shim */
